@@ -303,7 +303,146 @@ def monitor_c07(c, ikv, mkv):
     return None
 
 
+E2E_FORMATS = [b'%S %C [%d] %n %m (%G:%L)', b'%m', b'%I|%S|%C|%M|%F|%G|%L|%P|%T|%n|%t|%r|%m', b'%u %d', b'[%d] %m', b'%% %x %S%', b'%t:%n %M@%F:%L %m', b'%P -> %m']
+E2E_DATE_FORMATS = [b'%Y-%m-%d %H:%M:%S.%N', b'%Y%m%dT%H%M%S %z %Z', b'%d/%m/%y %H:%M', b'%N', b'']
+
+
+def e2e_stream(ctx):
+    """whole generated programs (log macros of every family, generated argument types, named writers, two sessions) -> files ->
+    the real bread binary, compared (a) with the model of bread on the same bytes and (b) with the text computed from the
+    SOURCE-LEVEL description of the statements (documented rendering of the typed values, time model of C17)"""
+    import gen_e2e as E2E
+    import checks_robust as CR
+    nprog = cases_count(ctx, 4, 32)
+    nst = 12
+    objs = build_repo_objects()
+    bread = CR.build_bread()
+    workdir = os.path.join(BUILD, 'e2e-%d' % os.getpid())
+    os.makedirs(workdir, exist_ok=True)
+    progs = []
+    for p in range(nprog):
+        rng = random.Random(ctx.seed * 104729 + p)
+        src, desc = E2E.make_program(rng, 'e%d_' % p, nst)
+        path = os.path.join(workdir, 'e2e%d.cpp' % p)
+        open(path, 'w').write(src)
+        progs.append({'src': path, 'exe': path[:-4], 'desc': desc, 'rng': rng})
+
+    def comp(pr):
+        rc, out = sh(['g++'] + CXXFLAGS + ['-fno-sanitize=bool,enum,nonnull-attribute', pr['src']] + objs + ['-o', pr['exe'], '-lpthread'])
+        if rc == 0:
+            e = dict(os.environ, ASAN_OPTIONS='detect_leaks=0')
+            q = subprocess.run([pr['exe'], pr['exe'] + '.1.blog', pr['exe'] + '.2.blog'], stdout=subprocess.PIPE, stderr=subprocess.PIPE, env=e, timeout=300)
+            return rc, out, q.returncode, q.stderr.decode('latin1')[-2000:]
+        return rc, out, None, ''
+    with ThreadPoolExecutor(max_workers=16) as ex:
+        res = list(ex.map(comp, progs))
+    try:
+        for (rc, out, rrc, rerr), pr in zip(res, progs):
+            if rc != 0:
+                raise BuildError('generated end-to-end program %s does not compile:\n%s' % (pr['src'], out[-3000:]))
+            if rrc != 0:
+                ctx.violation('e2e-program-died', 'C07: a generated logging program died (sanitizer/assert): ' + rerr[-500:], {'kind': 'program', 'source': open(pr['src']).read()[-6000:]})
+                return 1
+        # the source-level expectation needs the documented rendering of every argument and the time model
+        mser_lines, time_jobs = [], []
+        for pr in progs:
+            for st in pr['desc']['stmts']:
+                for a in st['args']:
+                    a['line'] = 'mser ' + ' '.join(GT.ty_tokens(a['ty'])) + ' | ' + ' '.join(GT.val_tokens(a['val']))
+                    mser_lines.append(a['line'])
+        mser_lines = sorted(set(mser_lines))
+        rc, mout, err = run_lines(driver_path(), mser_lines)
+        render = dict((l, bytes.fromhex(parse_kv(o).get('render', ''))) for l, o in zip(mser_lines, mout))
+        nfail, nmism, nev, nlines = 0, 0, 0, 0
+        fam = {}
+        for pr in progs:
+            desc = pr['desc']
+            sync = desc['sync']
+            cs = '%d,%d,%d,%d,%s' % (sync[0], sync[1], sync[2], sync[3] & 0xffffffff, sync[4].encode().hex())
+            for session, suffix in (('explicit', '.1.blog'), ('default', '.2.blog')):
+                file = open(pr['exe'] + suffix, 'rb').read()
+                evs = E2E.expected_events(desc, session)
+                # clocks of the events (only the system-clock ones are not known at source level)
+                q = subprocess.run([bread, '-f', '%r', pr['exe'] + suffix], stdout=subprocess.PIPE, stderr=subprocess.PIPE, env=dict(os.environ, ASAN_OPTIONS='detect_leaks=0'), timeout=120)
+                clocks = q.stdout.decode().split('\n')[:-1]
+                if len(clocks) != len(evs):
+                    nfail += 1
+                    ctx.violation('e2e-count-%s' % os.path.basename(pr['exe']), 'C07: bread printed %d events, the program logged %d into this session' % (len(clocks), len(evs)),
+                                  {'kind': 'program', 'source': open(pr['src']).read()[-8000:], 'bread_stderr': q.stderr.decode('latin1')[-500:]})
+                    continue
+                for fi in range(3):
+                    fmt, dfmt = pr['rng'].choice(E2E_FORMATS), pr['rng'].choice(E2E_DATE_FORMATS)
+                    q = subprocess.run([bread, '-f', fmt.decode(), '-d', dfmt.decode(), pr['exe'] + suffix], stdout=subprocess.PIPE, stderr=subprocess.PIPE,
+                                       env=dict(os.environ, ASAN_OPTIONS='detect_leaks=0'), timeout=120)
+                    got = q.stdout
+                    # (a) the model of bread on the same bytes
+                    rc, mo, err = run_lines(driver_path(), ['bread 0 %s %s %s' % ((fmt + b'\n').hex(), dfmt.hex() or '-', file.hex() or '-')])
+                    mtext = bytes.fromhex(parse_kv(mo[0]).get('text', '')) if mo else b''
+                    # (b) the source-level expectation
+                    tl = ['time %s %s %s' % (dfmt.hex() or '-', cs, c) for c in clocks]
+                    rc, to, err = run_lines(driver_path(), tl) if tl else (0, [], '')
+                    want = b''
+                    for (si, sid), clock, tline in zip(evs, clocks, to):
+                        st = desc['stmts'][si]
+                        nev += 1
+                        fam[st['family']] = fam.get(st['family'], 0) + 1
+                        if st['clock'] is not None and int(clock) != st['clock']:
+                            want += b'<clock of the statement is %d>' % st['clock']
+                        tk = parse_kv(tline)
+                        msg, rest, ai = b'', st['fmt'], 0
+                        while rest:
+                            if rest[:2] == b'{}':
+                                msg += render[st['args'][ai]['line']]
+                                ai += 1
+                                rest = rest[2:]
+                            else:
+                                msg += rest[:1]
+                                rest = rest[1:]
+                        file_ = st['file']
+                        base = file_
+                        for sep in (b'/', b'\\'):
+                            base = base.split(sep)[-1]
+                        fields = {b'I': b'%d' % sid, b'S': st['sev'][3].encode(), b'C': st['cat'].encode(), b'M': st['fn'].encode(), b'F': file_, b'G': base,
+                                  b'L': b'%d' % st['line'], b'P': st['fmt'], b'T': ''.join(GT.py_tag(a['ty']) for a in st['args']).encode(),
+                                  b'n': st['writer']['name'].encode(), b't': b'%d' % st['writer']['id'], b'r': clock.encode(),
+                                  b'd': bytes.fromhex(tk.get('local', '')) if not tk.get('local', '').startswith('ERR') else b'<time error>',
+                                  b'u': bytes.fromhex(tk.get('utc', '')) if not tk.get('utc', '').startswith('ERR') else b'<time error>', b'm': msg, b'%': b'%'}
+                        f = fmt + b'\n'
+                        i = 0
+                        while i < len(f):
+                            if f[i:i + 1] == b'%' and i + 1 < len(f):
+                                want += fields.get(f[i + 1:i + 2], f[i:i + 2])
+                                i += 2
+                            else:
+                                want += f[i:i + 1]
+                                i += 1
+                    nlines += 1
+                    key = hashlib.sha256(got + fmt + dfmt).hexdigest()[:10]
+                    if got != want:
+                        nfail += 1
+                        if nfail <= 3:
+                            # first differing line
+                            gl, wl = got.split(b'\n'), want.split(b'\n')
+                            k = next((j for j in range(min(len(gl), len(wl))) if gl[j] != wl[j]), min(len(gl), len(wl)))
+                            ctx.violation('e2e-%s' % key, 'C07: what bread prints is not what the program logged (format %r, date format %r): line %d is %r, the statement denotes %r' % (
+                                fmt.decode(), dfmt.decode(), k, gl[k][:300] if k < len(gl) else None, wl[k][:300] if k < len(wl) else None),
+                                {'kind': 'program', 'source_tail': open(pr['src']).read()[-8000:], 'format': fmt.decode(), 'date_format': dfmt.decode(),
+                                 'session': session, 'bread_stdout': got.decode('latin1')[:4000], 'expected': want.decode('latin1')[:4000]})
+                    elif got != mtext:
+                        nmism += 1
+                        if nmism <= 3:
+                            ctx.violation('corr-e2e-%s' % key, 'correspondence e2e broke: the model of bread and the real bread disagree on the file a generated program wrote',
+                                          {'kind': 'correspondence', 'stream': 'e2e', 'format': fmt.decode(), 'date_format': dfmt.decode(), 'file_hex': file.hex()[:20000],
+                                           'impl': got.decode('latin1')[:3000], 'model': mtext.decode('latin1')[:3000], 'broken': 'correspondence stream e2e / Props.C07'}, found_input=False)
+        ctx.streams['e2e'] = {'programs': nprog, 'statements_per_program': nst, 'outputs_compared': nlines, 'events_checked': nev, 'property_failures': nfail,
+                              'mismatches': nmism, 'macro_families': fam}
+        return nfail
+    finally:
+        subprocess.run(['rm', '-rf', workdir])
+
+
 def check_c07(ctx):
+    ctx.pre_fail = e2e_stream(ctx) > 0
     return run_mser_check(ctx, 'BinlogVerif.Props.C07', C07_THEOREMS, ['tag', 'bytes', 'text'], monitor_c07, RULE)
 
 
